@@ -24,7 +24,7 @@ ASSUME = ["numerical equality of vectorised and scalar evaluation is numpy broad
 
 
 def run(prog, rep):
-    rep.explanation = EXPL
+    rep.explanation = EXPL + ' C08.template also files the slot rows of C05 (explicit and stored parameter reach the scipy slot through the same mapping).'
     rep.assumptions = ASSUME
     rep.part(values, prog, rep)
     rep.part(forward, prog, rep)
